@@ -73,7 +73,14 @@ def world(native, fname, build_code=None):
     """the model, the collaborators and their log"""
     from xlcalculator import model as Mo
     model = Mo.Model()
-    model.cells, model.formulae, model.ranges, model.defined_names = {'c': 1}, {'f': 2}, {'r': 3}, {'d': 4}
+    # real cells / formulas / ranges in the tables (code that looks INTO the tables while persisting must find what a model holds), among them
+    # an empty cell of the kind build_ranges creates for an empty address inside a range
+    from xlcalculator import xltypes
+    a1, a3 = xltypes.XLCell('S!A1', 1), xltypes.XLCell('S!A3', '')
+    b1 = xltypes.XLCell('S!B1', None)
+    b1.formula = xltypes.XLFormula('=SUM(A1:A3)', 'S')
+    model.cells, model.formulae = {'S!A1': a1, 'S!A3': a3, 'S!B1': b1}, {'S!B1': b1.formula}
+    model.ranges, model.defined_names = {'S!A1:A3': xltypes.XLRange('S!A1:A3', 'S!A1:A3')}, {'d': a1}
     log = []
     decoded = {'cells': {'C': 1}, 'defined_names': {'D': 1}, 'formulae': {'F': 1}, 'ranges': {'R': 1}, 'extra': {}}
 
@@ -162,6 +169,10 @@ def opened(r, fname, mode):
     return kind == 'gzip'
 
 
+def _same_table(a, b):
+    return a is b or (isinstance(a, dict) and isinstance(b, dict) and list(a) == list(b) and all(a[k] is b[k] for k in a))
+
+
 def persist_ens(fname, out):
     if out.kind != 'ret':
         return False
@@ -177,8 +188,8 @@ def persist_ens(fname, out):
     payload, kw = encs[0][1], encs[0][2]
     if kw != {'keys': True} or not isinstance(payload, dict) or set(payload) != set(TABLES):
         return False
-    if any(payload[t] is not getattr(model, t) for t in TABLES):
-        return False                                          # each key holds the model's own table - none crossed over
+    if any(not _same_table(payload[t], getattr(model, t)) for t in TABLES):
+        return False                                          # each key holds the model's own table (or a copy with the very same entries) - none crossed over, nothing left out
     w = writes[0][1]
     if not (isinstance(w, tuple) and w[0] == 'BYTES-OF' and w[1].payload is payload):
         return False
